@@ -1,6 +1,24 @@
 """Instance generators (harness lists per tier) for the K-matcher engine."""
 
 
+import os
+
+
+def thin(lst, k):
+    """At most k evenly spaced elements of lst; VERIF_SEED rotates which ones (so that different
+    seeds of the thorough tier cover different shapes of an expensive family)."""
+    if len(lst) <= k:
+        return lst
+    seed = int(os.environ.get("VERIF_SEED", "0"))
+    stride = len(lst) / float(k)
+    off = seed % max(1, int(stride))
+    out = []
+    for i in range(k):
+        j = int(i * stride) + off
+        out.append(lst[min(j, len(lst) - 1)])
+    return out
+
+
 class Inst:
     def __init__(self, name, unwind, expr, props, bounds, family):
         self.name = name
@@ -38,8 +56,9 @@ def fuzzy_instances(tier):
                 for s in range(0, h - n):
                     for e in range(s + n + 1, h + 1):
                         wins.append((h, n, s, e))
-        # a few larger shapes (needle of 4, haystack of 7)
-        wins += [(7, 3, 0, 7), (7, 3, 2, 7), (6, 4, 0, 6), (7, 4, 0, 7), (7, 4, 1, 7)]
+        # the matrix matcher is the expensive family (2-6 min per window): 24 windows per run, rotated by
+        # VERIF_SEED, plus a few larger shapes (needle of 4, haystack of 7)
+        wins = thin(wins, 24) + [(7, 3, 0, 7), (6, 4, 0, 6), (7, 4, 0, 7), (7, 4, 1, 7)]
     for k, (h, n, s, e) in enumerate(wins):
         p = 1 if (h + n + s + e) % 2 == 0 else 0
         paths = [_pth(k)] if tier == "quick" else ["false", "true"]
@@ -67,7 +86,7 @@ def fuzzy_instances(tier):
                         {"H": h, "N": n, "start": s, "greedy_end": g, "repr": "ascii x ascii",
                          "bonus_profile": "match_paths" if pa == "true" else "default"}, "matcher_fuzzy"))
     # long gaps (score floored at zero)
-    for k, (h, st) in enumerate([(20, 0), (20, 1)] if tier == "quick" else [(19, 0), (19, 1), (20, 0), (20, 1), (22, 1)]):
+    for k, (h, st) in enumerate([] if tier == "quick" else [(20, 0), (20, 1)]):
         pa = _pth(k)
         out.append(Inst("optimal_gap_ascii_h%d_s%d" % (h, st), h + 2, "optimal_gap_ascii::<%d, %d>(%d, Some(%s))" % (h, k % 2, st, pa), A,
                         {"H": h, "N": 2, "shape": "2 symbolic chars + %d copies of one symbolic filler + 2 symbolic chars" % (h - 4), "window": [st, h],
@@ -159,7 +178,7 @@ def uni_instances(tier):
             ["C01", "C10"], {"H": h, "N": n, "needle": "ascii bytes" if na else "code points"})
     # O'
     wins = [(4, 2, 0, 4, False), (4, 2, 1, 4, True), (5, 3, 0, 5, False)] if q else \
-           [(h, n, s, e, na) for h in range(3, 6) for n in range(2, 4) if n < h for s in range(0, h - n) for e in range(s + n + 1, h + 1) for na in (False, True)]
+           thin([(h, n, s, e, na) for h in range(3, 6) for n in range(2, 4) if n < h for s in range(0, h - n) for e in range(s + n + 1, h + 1) for na in (False, True)], 12)
     for k, (h, n, s, e, na) in enumerate(wins):
         pa = _pth(k)
         add("optimal_uni_h%d_n%d_w%d_%d_%s" % (h, n, s, e, "an" if na else "un"), h,
@@ -189,9 +208,9 @@ def uni_instances(tier):
     # representation independence at the public API (ASCII text held either way)
     # (the fuzzy entry points run end to end here - prefilter, symbolic window, DP - which is only
     # affordable for the very smallest sizes)
-    ri = [("Fuzzy1", 2, 1, False), ("Substring", 3, 2, False), ("Fuzzy1", 3, 2, True), ("Exact", 2, 2, False)] if q else \
-         [("Fuzzy1", 2, 1, False), ("Fuzzy1", 2, 2, False), ("Fuzzy1", 3, 1, False), ("Fuzzy1", 3, 2, True), ("Fuzzy1", 4, 2, True)] + \
-         [(K, h, n, False) for K in ("Substring", "Prefix", "Postfix", "Exact") for (h, n) in ((3, 2), (3, 3), (4, 2))]
+    # (calibrated: greedy / substring at H=3,N=2 through all four representation pairs need > 11 GB)
+    ri = [("Fuzzy1", 2, 1, False), ("Exact", 2, 2, False)] if q else \
+         [("Fuzzy1", 2, 1, False), ("Fuzzy1", 3, 1, False), ("Exact", 2, 2, False), ("Exact", 3, 2, False), ("Prefix", 3, 2, False), ("Postfix", 3, 2, False)]
     for K, h, n, g in ri:
         nm = "repr_%s_h%d_n%d" % ("greedy" if g else ("fuzzy" if K == "Fuzzy1" else K.lower()), h, n)
         o = Inst(nm, max(h + 2, 7), "repr_independence::<%d, %d>(Kind::%s, %s)" % (h, n, K, str(g).lower()), ["C01", "C03", "C10"],
